@@ -168,7 +168,12 @@ func (p *party) OnMsg(msgBytes []byte, from uint16, broadcast bool) {
 		return
 	}
 
-	p.in <- msg
+	select {
+	case p.in <- msg:
+	default:
+		// The queue is full and nobody drains it (the protocol is not running): drop the message instead of blocking the dispatcher
+		p.logger.Warnf("Incoming message queue is full, dropping message from %d", from)
+	}
 }
 
 func (p *party) TPubKey() (*ecdsa.PublicKey, error) {
